@@ -74,6 +74,14 @@ CHECKS.update({
              "symbolic characters in U+0000..U+03FF, identifiers <= 3 chars, literals <= 5 chars, pairs of lexemes (quick: every class against "
              "12 representative neighbours on both sides; thorough: all pairs).",
         technique=MC, design="6/C15"),
+    "C19": dict(
+        text="All of symbols.rs is executed from MIR with hashbrown::HashMap replaced by an abstract finite map; the history's opcodes and name "
+             "characters are solver variables, so every history of the property's operations up to the bound is one explored path. After each "
+             "operation look-up, binding, scope exit, id allocation, id stability (also after scope exit) and the built-ins are compared with a "
+             "stack-of-maps oracle. Violations are replayed natively through the oq3_verif hook.",
+        note="Trusted: the abstract map has HashMap's documented contract (hashbrown itself is not analysed), MIR dump, z3. Bounds: histories of "
+             "length <= 5 (quick) / 7 (thorough) over 6 opcodes x 2 names x 2 types; longer histories are outside the claim.",
+        technique=MC, design="6/C19"),
     "C20": dict(
         text="promote_types and can_cast_literal (and the helpers they call, incl. the derived PartialEq/Clone) are executed from MIR on every "
              "ordered pair of type shapes (all 27 constructors; width present/absent; array rank) with symbolic widths (all u32), const flags, "
@@ -118,9 +126,10 @@ def main():
     man = {
         "version": 1,
         "setup_cmd": "./setup.sh",
-        "hooks": {"guard": "oq3_verif", "enable": "no source hooks are needed: the MIR dump gives access to private functions (RUSTFLAGS untouched)",
+        "hooks": {"guard": "oq3_verif (cargo feature of oq3_semantics, off by default)",
+                  "enable": "the native replay driver /verif/replay depends on oq3_semantics with features=[\"oq3_verif\"]; the MIR-based checks need no hook (private functions are reached through the MIR dump)",
                   "baseline_off_cmd": "cd /repo && cargo test --workspace --no-fail-fast --offline",
-                  "source_commits": [], "add_only": True},
+                  "source_commits": ["83bdfe7"], "add_only": True},
         "engines": [
             {"name": "mirsym", "path": "/verif/vf", "serves_properties": sorted(CHECKS),
              "kind_free_text": "path-enumerating symbolic executor over rustc -Zunpretty=mir text of /repo's crates (Python + z3), with native replay driver /verif/replay"},
